@@ -397,12 +397,26 @@ def _shard_entry(args):
         return ("err", f"shard {shard}: {type(e).__name__}: {e}\n{traceback.format_exc()}")
 
 
+def _pool(n):
+    """Worker pool of fresh interpreters ("spawn").  fork is avoided on purpose: children of the large parent
+    heap spend most of their time in copy-on-write page faults in this sandbox (measured 4-9x slowdown)."""
+    ctxm = multiprocessing.get_context("spawn")
+    return ctxm.Pool(min(n, os.cpu_count() or 1), initializer=_child_init, initargs=(list(sys.path),))
+
+
+def _child_init(path):
+    for p in path:
+        if p not in sys.path:
+            sys.path.append(p)
+    sys.dont_write_bytecode = True
+    bootstrap()
+
+
 def run_shards(fn, nshards, seed, **kw):
-    """fn(shard, seed, **kw) -> Collector; run in a fork pool and merge."""
+    """fn(shard, seed, **kw) -> Collector; run in a process pool and merge.  fn must be a module-level function."""
     if nshards <= 1:
         return fn(0, seed * 1000, **kw)
-    ctxm = multiprocessing.get_context("fork")
-    with ctxm.Pool(min(nshards, os.cpu_count() or 1)) as pool:
+    with _pool(nshards) as pool:
         results = pool.map(_shard_entry, [(fn, s, seed * 1000 + s, kw) for s in range(nshards)], chunksize=1)
     merged = None
     for status, r in results:
@@ -413,6 +427,13 @@ def run_shards(fn, nshards, seed, **kw):
         else:
             merged.merge(r)
     return merged
+
+
+def pmap(fn, jobs, n=16):
+    """unordered parallel map over jobs with module-level fn; yields results"""
+    with _pool(n) as pool:
+        for r in pool.imap_unordered(fn, jobs, chunksize=1):
+            yield r
 
 
 def load_replays(pid):
